@@ -47,7 +47,7 @@ fn add_stats(c: &mut Counters, kind: Kind, s: &RunStats) {
         Kind::Owned => "runs_rust_owned",
     };
     c.inc(k);
-    let pairs: [(&str, u64); 22] = [
+    let pairs: [(&str, u64); 23] = [
         ("ops", s.ops),
         ("writes", s.writes),
         ("grow_calls", s.grow_calls),
@@ -59,6 +59,7 @@ fn add_stats(c: &mut Counters, kind: Kind, s: &RunStats) {
         ("grow_outcome_defaulted", s.grow_default),
         ("probe_spurious_grow", s.spurious_grow),
         ("probe_under_request", s.under_request),
+        ("probe_grow_called_after_failure", s.grow_after_failure),
         ("probe_write_after_failure", s.write_after_fail),
         ("flushes", s.flushes),
         ("accesses", s.accesses),
